@@ -21,3 +21,13 @@ func VerifFilter2(request map[string]*ovsdb.MonitorRequest, update database.Upda
 	m := newConditionalMonitor("verif", request, nil)
 	return m.filter2(update)
 }
+
+// VerifPause, when set, is called at named points of the server so that a
+// verification harness can order goroutines deterministically.
+var VerifPause func(point string)
+
+func verifPause(point string) {
+	if f := VerifPause; f != nil {
+		f(point)
+	}
+}
